@@ -883,10 +883,12 @@ func runC04(o *Out) {
 		}
 		cnt := 0
 		for _, l := range fam {
-			if hasAmbiguous(l) {
-				continue
-			}
 			for n := -3 * L; n <= 3*L; n++ {
+				// ambiguous spans only when they do not cross the new origin
+				// (one that ends exactly at it does not cross it)
+				if ambCrosses(l, ((n%L)+L)%L, L) {
+					continue
+				}
 				cnt++
 				if o.Tier != "thorough" && isMulti(l) && cnt%5 != int(o.Seed%5) {
 					continue
@@ -905,6 +907,33 @@ func runC04(o *Out) {
 			o.Run("normalize", true, "loc_normalize", locSx(l), itoa(L))
 		}
 	}
+}
+
+// ambCrosses: some ambiguous span of l, moved n (0 <= n < L) places round a
+// circle of L, would have bases on both sides of the origin.
+func ambCrosses(l gts.Location, n, L int) bool {
+	switch v := l.(type) {
+	case gts.Ambiguous:
+		if v.End <= v.Start {
+			return true // not a span at all: outside the claim
+		}
+		return (v.Start+n)/L != (v.End+n-1)/L
+	case gts.Joined:
+		for _, e := range v {
+			if ambCrosses(e, n, L) {
+				return true
+			}
+		}
+	case gts.Ordered:
+		for _, e := range v {
+			if ambCrosses(e, n, L) {
+				return true
+			}
+		}
+	case gts.Complemented:
+		return ambCrosses(v.Location, n, L)
+	}
+	return false
 }
 
 func contiguousWithC(L int) []gts.Location {
